@@ -17,7 +17,7 @@ use serde_json::{Value, json};
 use vecdb::{BytesVec, LZ4Vec, PcoVec, ReadableVec, ZeroCopyVec, ZstdVec};
 
 use crate::util::{Scratch, fnv, parse_flags};
-use crate::vecreplay::{Elem, VK};
+use crate::vecreplay::{Be32, Elem, VK};
 
 struct Shared {
     results: Vec<Mutex<Vec<Value>>>,
@@ -279,6 +279,7 @@ pub fn main(args: &[String]) -> i32 {
     let lines: Vec<String> = std::io::BufReader::new(std::fs::File::open(input).expect("open input")).lines().map(|l| l.unwrap()).filter(|l| !l.trim().is_empty()).collect();
     let st = match format {
         "bytes" => run_all::<BytesVec<usize, u32>>(&lines, prelen, pp, readers),
+        "bytes_be" => run_all::<BytesVec<usize, Be32>>(&lines, prelen, pp, readers),
         "zerocopy" => run_all::<ZeroCopyVec<usize, u32>>(&lines, prelen, pp, readers),
         "pco" => run_all::<PcoVec<usize, u32>>(&lines, prelen, pp, readers),
         "lz4" => run_all::<LZ4Vec<usize, u32>>(&lines, prelen, pp, readers),
